@@ -112,10 +112,48 @@ def rule_find_region(ctx, prog, eff):
             return None
         return 'other:' + tstr(r[2])[:40] + ' ' + r[1] + ' ' + tstr(r[3])[:40]
 
+    from ..mir import map_children
+
+    def nz(t):
+        """spellings of `the element before x`: the payload of a successful x.checked_sub(1) is x - 1; the last element of the prefix
+        s[..x] is s[x - 1]; a successful filter hands on its receiver's payload (that both exist is a fact of the same outcome: `gt0`)"""
+        if not isinstance(t, tuple) or not t:
+            return t
+        t = map_children(t, nz)
+        if t[0] == 'ok' and isinstance(t[1], tuple):
+            p = unref(t[1])
+            if p[0] == 'call' and canon(p[1]).endswith("Option::filter") and len(p[2]) == 2:
+                return nz(('ok', p[2][0]))
+            if p[0] == 'call' and canon(p[1]).endswith("num::checked_sub") and len(p[2]) == 2 and unref(p[2][1]) == ('const', 1):
+                return ('bin', 'Sub', p[2][0], ('const', 1))
+            if p[0] == 'call' and canon(p[1]).endswith("slice::last") and len(p[2]) == 1:
+                q = unref(p[2][0])
+                if q[0] == 'call' and canon(q[1]).endswith("Index::index") and len(q[2]) == 2:
+                    r = unref(q[2][1])
+                    if r[0] == 'agg' and str(r[1]).endswith("RangeTo") and len(r[3]) == 1:
+                        return ('call', q[1], (q[2][0], ('bin', 'Sub', r[3][0], ('const', 1)))) + tuple(q[3:])
+        return t
+
+    def before_exists(r, x):
+        """r states that `the element before x` exists: x.checked_sub(1) is Some / s[..x].last() is Some"""
+        if r[0] != 'discr' or r[2] != 1 or x is None:
+            return False
+        p = unref(r[1])
+        if p[0] == 'call' and canon(p[1]).endswith("num::checked_sub") and len(p[2]) == 2 and unref(p[2][1]) == ('const', 1):
+            return unref(p[2][0]) == x
+        if p[0] == 'call' and canon(p[1]).endswith("slice::last") and len(p[2]) == 1:
+            q = unref(p[2][0])
+            if q[0] == 'call' and canon(q[1]).endswith("Index::index") and len(q[2]) == 2:
+                r_ = unref(q[2][1])
+                return r_[0] == 'agg' and str(r_[1]).endswith("RangeTo") and len(r_[3]) == 1 and unref(r_[3][0]) == x and \
+                    match(F(P(1), "regions"), q[2][0], {})
+        return False
+
     outs = outcomes.outcomes(prog, eff, b)
     for o in outs:
-        pos, d = o[0], deep_strip(o[1])
-        facts = outcomes.facts_of(b, o)
+        pos, d = o[0], deep_strip(nz(o[1]))
+        raw_facts = outcomes.facts_of(b, o, (prog, eff))
+        facts = [tuple(nz(x) if isinstance(x, tuple) else x for x in r) for r in raw_facts]
         if d[0] == 'agg' and d[2] == 'None':
             arms["none"] += 1
             continue
@@ -137,7 +175,7 @@ def rule_find_region(ctx, prog, eff):
         if match(BIN("Sub", V("x"), K(1)), v, e2):
             x = e2["x"]
             is_err = x[0] == 'vfield' and x[2] == 'Err' and unref(x[1]) == search
-            kinds = [classify_fact(r, x) for r in facts]
+            kinds = [classify_fact(r, x) for r in facts] + ['gt0' for r in raw_facts if before_exists(r, unref(x))]
             gt0, le_ok = 'gt0' in kinds, 'le_last' in kinds
             extra = sorted({k for k in kinds if k and k not in ('search', 'gt0', 'le_last')})
             arms["err"] += 1
